@@ -121,3 +121,17 @@ func viewsOf(p *Prog, fns []*ssa.Function) []*ssa.Function {
 	sort.Slice(out, func(i, j int) bool { return out[i].Pos() < out[j].Pos() })
 	return out
 }
+
+// isBuiltDuplicate: f is a built function of which an inlined view exists in this run (role maps keep both keys so that
+// a callee found through a call instruction resolves; iterations skip the built duplicate).
+func isBuiltDuplicate(f *ssa.Function) bool {
+	if _, isView := inlineOf[f]; isView {
+		return false
+	}
+	for _, o := range inlineOf {
+		if o == f {
+			return true
+		}
+	}
+	return false
+}
